@@ -22,7 +22,7 @@ EXPLANATION = (
     'inside the exception wrapper; (g) the sent-futures handed to the application are settled by the close sequence '
     '(both queues drained) and by the sender on every edge out of the write. Not decided: behaviour per byte offset '
     '(all cut points funnel into the three receiver exits) and timing.')
-EXPLANATION_ADDED = ("(h) the reconnect listener's exits fail the registered streams; (i) a cancellation delivered inside the sender or the keepalive loops ends the task; wrap_transport_exception really raises RSocketTransportError; _fail_unsent_frames drains both queues (only while non-empty, until empty) and fails every pending sent-future; close() stops the tasks and then closes an obtained transport; the loop's isinstance dispatch agrees with the handler roles derived from behaviour; (j) close() of a load-balancer strategy closes every member of the pool requests are routed over, with one member's failing close() isolated from the others (gather with return_exceptions, or a contained await per member), and the load-balancer socket's close()/__aexit__ await it unconditionally; a failing transport.close() is contained in _close_transport; (k) every message (websocket-style) transport puts an exception into its incoming queue on every way its feeder can stop - normal end, error, and cancellation unless the feeder is a task the transport itself owns and cancels from close() - or, for call-back style feeders, from the disconnect call-back, so the receiver runs the close sequence when the peer goes away; (l) the awaitable adapter's close / connect / context-manager methods run the wrapped socket's coroutine (awaited or returned), not merely create it; (m) a CancelledError delivered inside an entry point of the library's own request handlers (routing handler, Rx adapters; they are awaited inline by the receiver) propagates out of it.")
+EXPLANATION_ADDED = ("(h) the reconnect listener's exits fail the registered streams; (i) a cancellation delivered inside the sender or the keepalive loops ends the task; wrap_transport_exception really raises RSocketTransportError; _fail_unsent_frames drains both queues (only while non-empty, until empty) and fails every pending sent-future; close() stops the tasks and then closes an obtained transport; the loop's isinstance dispatch agrees with the handler roles derived from behaviour; (j) close() of a load-balancer strategy closes every member of the pool requests are routed over, with one member's failing close() isolated from the others (gather with return_exceptions, or a contained await per member), and the load-balancer socket's close()/__aexit__ await it unconditionally; a failing transport.close() is contained in _close_transport; (k) every message (websocket-style) transport puts an exception into its incoming queue on every way its feeder can stop - normal end, error, and cancellation unless the feeder is a task the transport itself owns and cancels from close() - or, for call-back style feeders, from the disconnect call-back, so the receiver runs the close sequence when the peer goes away; (l) the awaitable adapter's close / connect / context-manager methods run the wrapped socket's coroutine (awaited or returned), not merely create it; (m) a CancelledError delivered inside an entry point of the library's own request handlers (routing handler, Rx adapters; they are awaited inline by the receiver) propagates out of it. (round 15) the requesting end of a channel, which the close sequence fails and then disposes, cancels its local producer in dispose() from every state the synthetic ERROR leaves (unless the ERROR branch already did); _close_transport has no exit without close() other than finding no transport obtained.")
 EXPLANATION = EXPLANATION.replace(' Not decided', ' ' + EXPLANATION_ADDED + ' Not decided', 1) \
     if ' Not decided' in EXPLANATION else EXPLANATION + ' ' + EXPLANATION_ADDED
 ASSUMPTIONS = COMMON_ASSUMPTIONS + [
@@ -237,6 +237,37 @@ def rule_c(ctx):
             rep.add('C11.c', '%s.dispose / cancels the producer' % h.name, d, ok,
                     'subscription/future is cancelled (or shown absent) on all %d paths' % len(paths) if ok else
                     'a dispose() path neither cancels the producer nor shows there is none')
+            # a handler that is failed AND disposed by the loop (the requesting end of a channel) reaches dispose() in the
+            # state the synthetic ERROR left: from every such state dispose() still cancels the producer, unless the
+            # ERROR branch itself did
+            inter_h, role_h = m.role(h)
+            if role_h == 'requester':
+                bad2 = None
+                n2 = 0
+                for en in m.entries(h):
+                    if en.kind != 'frame' or 'ErrorFrame' not in en.name:
+                        continue
+                    for p1 in m.run(en, pre0):
+                        if p1.outcome != 'return':
+                            continue
+                        post = dict(pre0)
+                        post.update(m.post_state(p1))
+                        for p2 in m.run(ens[0], post):
+                            if p2.outcome != 'return':
+                                continue
+                            n2 += 1
+                            none_shown = any(e.kind == 'cond' and e.data['key'][0] == 'isnone' and
+                                             e.data['value'] is True for e in p2.events)
+                            if not (m.producer_cancelled(p1) or m.producer_cancelled(p2) or none_shown):
+                                bad2 = post
+                if n2 == 0:
+                    raise AnalysisError('C11.c: no ERROR-then-dispose sequence explored for %s' % h.name)
+                rep.add('C11.c', '%s / synthetic ERROR then dispose() cancels the producer' % h.name, d, bad2 is None,
+                        'from every state the ERROR branch leaves, dispose() cancels the producer (%d sequences)' % n2
+                        if bad2 is None else
+                        'in the state the close sequence\'s ERROR leaves (%s) dispose() returns without cancelling the '
+                        'local publisher: it keeps producing for a connection that is gone' % (
+                            '{' + ', '.join('%s=%s' % kv for kv in sorted(bad2.items())) + '}'))
             # ... whatever the application's call-backs do on the way: a call-out that raises before the producer is
             # cancelled leaves dispose() with the producer still running (stop_all_streams only logs the exception)
             bad = None
